@@ -274,6 +274,7 @@ func (c *Call) RequestStart() time.Time { return c.requestStart }
 
 // Exchange is one HTTP request/response pair.
 type Exchange struct {
+	bodyIsConn          bool // 101 Switching Protocols: the response body is the connection itself
 	lateWindow          bool // between the two phases of an HTTP/1.1-over-TLS cancellation
 	LateWindows         int  // how often that window opened
 	upEOF               bool // the pump has seen the end of the request body
@@ -621,7 +622,7 @@ func (e *Exchange) updateDeaf() {
 	// (HTTP/1.1 before the response: RoundTrip does notice the context, but it
 	// returns only once the write loop has ended - mapRoundTripError waits for
 	// it - and the write loop is blocked reading the request body.)
-	e.Call.Ctx.SetDeaf(e.lateWindow || e.pumpInRead && (e.Call.K.HTTP2 && e.RespReturned || !e.Call.K.HTTP2 && !e.RespReturned))
+	e.Call.Ctx.SetDeaf(e.bodyIsConn || e.lateWindow || e.pumpInRead && (e.Call.K.HTTP2 && e.RespReturned || !e.Call.K.HTTP2 && !e.RespReturned))
 }
 
 func (e *Exchange) runPump() {
